@@ -40,11 +40,13 @@ func firstDiff(a, b []byte) int {
 }
 
 // interleaved is an unrelated message with a list, a set and a map, decoded between two uses of a value.
-var interleaved = refcodec.Encode(wm.Struct(
+var interleaved = refcodec.Encode(interleavedW)
+
+var interleavedW = wm.Struct(
 	wm.Field{ID: 1, V: wm.List(wm.KI32, wm.I32(7), wm.I32(8), wm.I32(9))},
 	wm.Field{ID: 2, V: wm.Set(wm.KBinary, wm.Binary([]byte("other")))},
 	wm.Field{ID: 3, V: wm.Map(wm.KI64, wm.KBool, wm.Pair{K: wm.I64(1), V: wm.Bool(true)})},
-))
+)
 
 // checkCase is the oracle. It returns nil or a keyed verdict.
 func checkCase(c Case) error {
@@ -76,6 +78,30 @@ func checkCase(c Case) error {
 	}
 	if !bytes.Equal(sbuf.Bytes(), ref) {
 		return ev.Errf("stream-write/bytes/"+w.K.String(), "stream writer differs from spec bytes at offset %d (got %d bytes, want %d)", firstDiff(sbuf.Bytes(), ref), sbuf.Len(), len(ref))
+	}
+
+	// (2b) writers are independent of each other: a stream writer left open while a value is
+	// encoded, and while a second stream writer is opened and used, still delivers exactly its own
+	// bytes to its own destination
+	var b1, b2, b3 bytes.Buffer
+	sw1 := binary.Default.Writer(&b1)
+	if err := binary.Default.Encode(bridge.ToWire(w), &b3); err != nil {
+		return ev.Errf("encode/error", "Encode failed on a well-typed value: %v", err)
+	}
+	sw2 := binary.Default.Writer(&b2)
+	err1 := ev.Guard(func() error { return bridge.StreamWrite(sw1, w) })
+	err2 := ev.Guard(func() error { return bridge.StreamWrite(sw2, interleavedW) })
+	if err1 == nil {
+		err1 = sw1.Close()
+	}
+	if err2 == nil {
+		err2 = sw2.Close()
+	}
+	if err1 != nil || err2 != nil {
+		return ev.Errf("stream-write/interleaved/error", "two stream writers open at the same time: %v / %v", err1, err2)
+	}
+	if !bytes.Equal(b1.Bytes(), ref) || !bytes.Equal(b2.Bytes(), interleaved) || !bytes.Equal(b3.Bytes(), ref) {
+		return ev.Errf("stream-write/interleaved/bytes", "two stream writers open at the same time (and a value encoded in between): destinations received %d / %d / %d bytes, want %d / %d / %d", b1.Len(), b2.Len(), b3.Len(), len(ref), len(interleaved), len(ref))
 	}
 
 	// (3) random-access decoder inverts, consuming everything
